@@ -222,6 +222,8 @@ class Ctx:
             return self.error(rule, instance, f"undecided: the code value uses operations outside the vocabulary of the reference formula {sorted(new_ops)[:6]}; code: {sa[:300]}  vs reference: {sb[:300]}", site)
         from .nf import show_diff
 
+        if os.environ.get("VERIF_DEBUG_TERMS"):
+            print(f"DEBUG-TERMS {rule} {instance}\n  code: {ct!r}\n  ref : {rt!r}")
         try:
             sites = show_diff(*self._last_nf)
         except Exception:
